@@ -293,14 +293,18 @@ def replay_task(case):
 
 
 def parse_cases(res):
+    from harness.parse_tla import parse_value
     cases = {}
-    for rec in res.prints("CASE"):
-        c = rec[1]
-        key = repr(rec)
-        cases[key] = {"kind": c["kind"], "nw": c["nw"], "prim": c["prim"], "nf": c["nf"],
-                      "wlarg": {"mode": c["wlarg"]["mode"], "list": list(c["wlarg"]["list"])},
-                      "farg": {"mode": c["farg"]["mode"], "list": list(c["farg"]["list"]), "n": c["farg"]["n"]},
-                      "nwu": rec[2], "nfu": rec[3], "adm": sorted(rec[4])}
+    for line in res.out.splitlines():
+        line = line.strip()
+        if not line.startswith('"CASE <<'):
+            continue
+        rec = parse_value(line[6:-1].replace('\\"', '"'))
+        c = rec[0]
+        cases[line] = {"kind": c["kind"], "nw": c["nw"], "prim": c["prim"], "nf": c["nf"],
+                       "wlarg": {"mode": c["wlarg"]["mode"], "list": list(c["wlarg"]["list"])},
+                       "farg": {"mode": c["farg"]["mode"], "list": list(c["farg"]["list"]), "n": c["farg"]["n"]},
+                       "nwu": rec[1], "nfu": rec[2], "adm": [i + 1 for i, b in enumerate(rec[3]) if b]}
     return list(cases.values())
 
 
